@@ -590,6 +590,7 @@ func cmdFunc(args []string) int {
 		}
 		if o.Result.Status != "unsat" {
 			bad++
+			fmt.Printf("    at %s\n", o.Pos)
 			if *dump {
 				p := filepath.Join(verifDir, ".work", sanitize(o.Name)+".smt2")
 				os.WriteFile(p, []byte(o.Query()+"(get-model)\n"), 0o644)
